@@ -17,7 +17,11 @@ func init() {
 			"non-trivial = the scheduler called StartContainer or KillContainer; distinct = (#containers, #workers, outcome flags, set of environment moves that applied). " +
 			"(b) stream e2e-C14: case = one end-to-end run (50-100 containers quick, up to 500 thorough) of the real scheduler + real worker.Pool over loopback SSH against the stub cloud with a PRNG fault schedule " +
 			"(per-VM slow boot / never boots / broken-after / crunch-run missing / reports broken / crash rate / arv-mount deadlock / unkillable; destroy errors, create and list rate limits, quota error in thorough), " +
-			"API changes while containers run (cancel, priority 0, requeue), operator hold/drain, late containers, and one dispatcher kill+restart (0-2 in thorough); non-trivial = at least one crunch-run start; distinct = (size, restarts, destroy error rate, set of VM fault kinds that occurred)",
+			"VMs that are slow over SSH (crunch-run --detach needs 5-15 ms before the process exists, crunch-run --list answers late with the snapshot taken at arrival), queue poll interval 5/20/50 ms (queue cache lagging the API), " +
+			"instance types needed by one or two containers only whose first Create fails, " +
+			"API changes while containers run (cancel, priority 0, requeue), operator hold/drain, late containers, and zero or one dispatcher kill+restart (0-2 in thorough); " +
+			"stream e2e-C14-slowssh: fault-free runs in which every VM is slow over SSH and the queue is polled every 5 ms; " +
+			"non-trivial = at least one crunch-run start; distinct = (size, restarts, destroy error rate, set of VM kinds that occurred)",
 		Assume: []string{
 			"(a) the model pool mirrors worker.Pool's documented interface behaviour; the environment never reveals an unknown process between the scheduler's kill-before-start guard and StartContainer (no code can close that window)",
 			"(b) a restarted dispatcher finishes fixStaleLocks before StaleLockTimeout (60 s here); if it gives up, the run is inconclusive for S1",
